@@ -234,12 +234,17 @@ class BarrierScenario(Scenario):
 
         async def idx2(name: str, **_: Any) -> Any:
             env.log('indexed', of='w', name=name)
+            if self.params.get('slow_index2'):
+                import asyncio
+                await asyncio.sleep(self.params['slow_index2'])
             return {'all': name}
-        kopf.index('kopfexamples', id='idx1', registry=reg)(idx1)
+        only2 = bool(self.params.get('only_second_indexed'))   # the handled kind has no index of its own
+        if not only2:
+            kopf.index('kopfexamples', id='idx1', registry=reg)(idx1)
         kopf.index('kopfwidgets', id='idx2', registry=reg)(idx2)
 
         def seen(kw: dict) -> dict:
-            return {'idx1': sorted(kw['idx1'].get('all', [])), 'idx2': sorted(kw['idx2'].get('all', []))}
+            return {'idx1': sorted(kw['idx1'].get('all', [])) if not only2 else None, 'idx2': sorted(kw['idx2'].get('all', []))}
 
         async def c1(**kw: Any) -> None:
             env.log('handled', id='c1', name=kw['name'], **seen(kw))
@@ -270,7 +275,7 @@ class BarrierScenario(Scenario):
         want2 = sorted(f'w{i}' for i in range(self.params['n2']))
         for t, k, p in env.obs:
             if k == 'handled':
-                miss1 = [n for n in want1 if n not in p['idx1']]
+                miss1 = [n for n in want1 if n not in p['idx1']] if p['idx1'] is not None else []
                 miss2 = [n for n in want2 if n not in p['idx2']]
                 if miss1 or miss2:
                     out.append(self.viol(env, 'handled-before-indexed', f"t={t}: {p['id']} ran for {p['name']} while the indices lack {miss1 + miss2} "
@@ -291,6 +296,8 @@ def run(tier: str, seed: int) -> CheckResult:
                                        for h in histories(4, ['a', 'b']) if sum(1 for a in h if a[0] == 'set') <= 3 and any(a[0] in ('delete', 'label') for a in h)]
     barrier = [BarrierScenario(n1=n1, n2=n2, slow_index=slow, handlers_on_second=h2)
                for n1, n2, slow, h2 in [(1, 1, 0, False), (2, 1, 0, False), (1, 2, 1.0, False), (2, 2, 0, True), (0, 2, 0, False), (2, 0, 0, False)]]
+    barrier += [BarrierScenario(n1=n1, n2=n2, slow_index=0, slow_index2=slow2, handlers_on_second=False, only_second_indexed=True)
+                for n1, n2, slow2 in [(1, 1, 0), (2, 2, 0), (1, 2, 1.0)]]
     if tier == 'quick':
         groups = [('index-histories-2-objects', hist2, 0, 60.0), ('index-histories-3-objects', hist3, 0, 30.0), ('barrier', barrier, 2, 50.0)]
     else:
